@@ -273,6 +273,9 @@ def _hilbert3d(x, y, z, bit_length):
 
 def _get_cpu_list(bounding_box, lmax, levelmax, infofile, ncpu, ndim):
     bound_key = _read_bound_key(infofile=infofile, ncpu=ncpu)
+    # The keys are printed with 15 digits: the last one can come out below the end
+    # of the key space, which belongs to the last cpu all the same
+    bound_key[-1] = max(bound_key[-1], 2 ** (ndim * (levelmax + 1)))
 
     xmin = bounding_box["xmin"]
     xmax = bounding_box["xmax"]
